@@ -18,18 +18,18 @@ Local Open Scope string_scope. Local Open Scope list_scope.
    most-derived definition, super = next definition up, nested blocks resolved again; nothing after the extends tag
    except through blocks; RequiredBlockError for a reached block whose most-derived definition is `required`;
    TemplateInheritanceError when any template of the chain repeats a block name or has a mismatched endblock. *)
-Theorem C18_most_derived : forall fuel L ld leaf t chain data,
+Theorem C18_most_derived : forall fuel sup nb L ld leaf t chain data,
   alookup leaf ld = Some t -> chain_from ld t chain -> 2 <= length chain ->
-  render_model fuel L ld leaf data <> OutOfFuel /\ render_model fuel L ld leaf data <> Err EContextDepth ->
-  render_spec fuel chain data = render_model fuel L ld leaf data.
+  render_model fuel sup nb L ld leaf data <> OutOfFuel /\ render_model fuel sup nb L ld leaf data <> Err EContextDepth ->
+  render_spec fuel sup nb chain data = render_model fuel sup nb L ld leaf data.
 Proof. exact model_is_spec_chain. Qed.
 Print Assumptions C18_most_derived.
 
 (* OutOfFuel is excluded: fuel_bound L (a function of the depth limit only — 2178 for the default limit 30) suffices for
    every loader, template and data, because every jump to another body deepens the copy depth or the scope of the context
    block.super renders in, and both are capped by L. *)
-Theorem C18_fuel_sufficient : forall L ld leaf data fuel,
-  fuel_bound L <= fuel -> render_model fuel L ld leaf data <> OutOfFuel.
+Theorem C18_fuel_sufficient : forall sup nb L ld leaf data fuel,
+  fuel_bound L <= fuel -> render_model fuel sup nb L ld leaf data <> OutOfFuel.
 Proof. exact render_model_fuel. Qed.
 Print Assumptions C18_fuel_sufficient.
 
@@ -37,32 +37,32 @@ Print Assumptions C18_fuel_sufficient.
 Theorem C18_run_is_spec : forall c t chain,
   alookup (k_leaf c) (k_loader c) = Some t -> chain_from (k_loader c) t chain -> 2 <= length chain ->
   run_inherit c <> Err EContextDepth ->
-  render_spec (fuel_bound (k_limit c)) chain (k_data c) = run_inherit c.
+  render_spec (fuel_bound (k_limit c)) (k_suppress c) node_blank chain (k_data c) = run_inherit c.
 Proof.
-  intros c t chain Hl Hc Hlen Hd. apply (model_is_spec_chain _ _ _ _ t); auto.
+  intros c t chain Hl Hc Hlen Hd. apply (model_is_spec_chain _ _ _ _ _ _ t); auto.
   split; [apply render_model_fuel; apply le_n | exact Hd].
 Qed.
 Print Assumptions C18_run_is_spec.
 
 (* the documented result does not depend on the fuel once there is enough of it *)
-Theorem C18_spec_fuel_independent : forall f f' chain data r,
-  f <= f' -> render_spec f chain data = r -> r <> OutOfFuel -> render_spec f' chain data = r.
+Theorem C18_spec_fuel_independent : forall sup nb f f' chain data r,
+  f <= f' -> render_spec f sup nb chain data = r -> r <> OutOfFuel -> render_spec f' sup nb chain data = r.
 Proof. exact render_spec_mono. Qed.
 Print Assumptions C18_spec_fuel_independent.
 
 (* a template without extends (chain of length 1): the same, PROVIDED its block names are unique.
    Missing for the full statement: the code does not reject duplicate names in such a template (next theorem). *)
-Theorem C18_standalone_partial : forall fuel L ld leaf t data,
+Theorem C18_standalone_partial : forall fuel sup nb L ld leaf t data,
   alookup leaf ld = Some t -> textends t = [] -> dup_bad t = false ->
-  render_model fuel L ld leaf data <> OutOfFuel /\ render_model fuel L ld leaf data <> Err EContextDepth ->
-  render_spec fuel [t] data = render_model fuel L ld leaf data.
+  render_model fuel sup nb L ld leaf data <> OutOfFuel /\ render_model fuel sup nb L ld leaf data <> Err EContextDepth ->
+  render_spec fuel sup nb [t] data = render_model fuel sup nb L ld leaf data.
 Proof. exact model_is_spec_standalone. Qed.
 Print Assumptions C18_standalone_partial.
 
-Definition C18_standalone_full_statement : Prop := forall fuel L ld leaf t data,
+Definition C18_standalone_full_statement : Prop := forall fuel sup nb L ld leaf t data,
   alookup leaf ld = Some t -> textends t = [] ->
-  render_model fuel L ld leaf data <> OutOfFuel /\ render_model fuel L ld leaf data <> Err EContextDepth ->
-  render_spec fuel [t] data = render_model fuel L ld leaf data.
+  render_model fuel sup nb L ld leaf data <> OutOfFuel /\ render_model fuel sup nb L ld leaf data <> Err EContextDepth ->
+  render_spec fuel sup nb [t] data = render_model fuel sup nb L ld leaf data.
 
 Definition dup_witness : template :=
   [TNode (Block (lit "a") false None [Text (lit "x")]); TNode (Block (lit "a") false None [Text (lit "y")])].
@@ -70,59 +70,59 @@ Definition dup_witness : template :=
 (* witness: `{% block a %}x{% endblock %}{% block a %}y{% endblock %}` rendered on its own gives "xy", not an error *)
 Theorem C18_standalone_duplicate_refuted : ~ C18_standalone_full_statement.
 Proof.
-  intro H. specialize (H 10 30 [(lit "leaf", dup_witness)] (lit "leaf") dup_witness [] eq_refl eq_refl).
+  intro H. specialize (H 10 true node_blank 30 [(lit "leaf", dup_witness)] (lit "leaf") dup_witness [] eq_refl eq_refl).
   vm_compute in H. assert (X : Err EInherit = Ok (lit "xy")) by (apply H; split; discriminate). discriminate X.
 Qed.
 Print Assumptions C18_standalone_duplicate_refuted.
 
 (* in a child template only the blocks (and further extends tags) written after the extends tag matter *)
-Theorem C18_after_extends_ignored : forall fuel L ld data pre p post post',
+Theorem C18_after_extends_ignored : forall fuel sup nb L ld data pre p post post',
   tblocks post = tblocks post' -> textends post = textends post' ->
-  render_template fuel L ld data (map TNode pre ++ TExtends p :: post) =
-  render_template fuel L ld data (map TNode pre ++ TExtends p :: post').
+  render_template fuel sup nb L ld data (map TNode pre ++ TExtends p :: post) =
+  render_template fuel sup nb L ld data (map TNode pre ++ TExtends p :: post').
 Proof. exact after_extends_ignored. Qed.
 Print Assumptions C18_after_extends_ignored.
 
 (* a block tag reached while the stacks hold the definitions of `chain`, whose most-derived definition is `required`,
    raises RequiredBlockError whatever the tag itself says *)
-Theorem C18_required : forall L st chain jump c name req en body b above,
+Theorem C18_required : forall sup nb L st chain jump c name req en body b above,
   (forall n, slookup n st = items_from chain n) ->
   first_def chain name = Some (b, above) -> bd_required b = true ->
-  exec_node L st jump c (Block name req en body) = Err ERequiredBlock.
+  exec_node sup nb L st jump c (Block name req en body) = Err ERequiredBlock.
 Proof. exact required_not_overridden. Qed.
 Print Assumptions C18_required.
 
 (* ... in particular at the start of the root of a well-formed chain *)
-Theorem C18_required_top : forall fuel L ld data t chain a name req en body sfx b above,
+Theorem C18_required_top : forall fuel sup nb L ld data t chain a name req en body sfx b above,
   chain_from ld t chain -> 2 <= length chain -> 5 <= L -> chain_bad chain = false ->
-  exec (S fuel) L [] {| c_env := data; c_s := 5; c_d := 0; c_block := None |} (fst (split_extends t)) = Ok a ->
+  exec (S fuel) sup nb L [] {| c_env := data; c_s := 5; c_d := 0; c_block := None |} (fst (split_extends t)) = Ok a ->
   tnodes (last chain t) = Block name req en body :: sfx ->
   first_def chain name = Some (b, above) -> bd_required b = true ->
-  render_template (S fuel) L ld data t = Err ERequiredBlock.
+  render_template (S fuel) sup nb L ld data t = Err ERequiredBlock.
 Proof. exact required_top. Qed.
 Print Assumptions C18_required_top.
 
 (* ... and a required block of a template rendered on its own *)
-Theorem C18_required_standalone : forall L jump c name en body,
-  exec_node L [] jump c (Block name true en body) = Err ERequiredBlock.
+Theorem C18_required_standalone : forall sup nb L jump c name en body,
+  exec_node sup nb L [] jump c (Block name true en body) = Err ERequiredBlock.
 Proof. exact required_standalone. Qed.
 Print Assumptions C18_required_standalone.
 
 (* circular extends: when the extends links never end (every template reached has one extends tag naming an existing
    template), and the leaf's content before its extends tag renders, the render raises TemplateInheritanceError *)
-Theorem C18_cycle : forall fuel L ld data t a,
+Theorem C18_cycle : forall fuel sup nb L ld data t a,
   endless_chain ld t -> 4 <= L ->
-  exec fuel L [] {| c_env := data; c_s := 5; c_d := 0; c_block := None |} (fst (split_extends t)) = Ok a ->
-  render_template fuel L ld data t = Err EInherit.
+  exec fuel sup nb L [] {| c_env := data; c_s := 5; c_d := 0; c_block := None |} (fst (split_extends t)) = Ok a ->
+  render_template fuel sup nb L ld data t = Err EInherit.
 Proof. exact cycle_rejected. Qed.
 Print Assumptions C18_cycle.
 
 (* a chain of >= 2 templates in which some template repeats a block name, or some parent has a mismatched endblock
    name, is rejected with TemplateInheritanceError *)
-Theorem C18_chain_rejected : forall fuel L ld data t chain a,
+Theorem C18_chain_rejected : forall fuel sup nb L ld data t chain a,
   chain_from ld t chain -> 2 <= length chain -> 4 <= L -> chain_bad chain = true ->
-  exec fuel L [] {| c_env := data; c_s := 5; c_d := 0; c_block := None |} (fst (split_extends t)) = Ok a ->
-  render_template fuel L ld data t = Err EInherit.
+  exec fuel sup nb L [] {| c_env := data; c_s := 5; c_d := 0; c_block := None |} (fst (split_extends t)) = Ok a ->
+  render_template fuel sup nb L ld data t = Err EInherit.
 Proof. exact chain_rejected. Qed.
 Print Assumptions C18_chain_rejected.
 
@@ -132,10 +132,78 @@ Proof. intro t. apply has_dup_spec. Qed.
 Print Assumptions C18_duplicate_meaning.
 
 (* a leaf with a mismatched endblock name does not load *)
-Theorem C18_endblock_mismatch : forall fuel L ld leaf t data,
-  alookup leaf ld = Some t -> parse_ok t = false -> render_model fuel L ld leaf data = Err EInherit.
+Theorem C18_endblock_mismatch : forall fuel sup nb L ld leaf t data,
+  alookup leaf ld = Some t -> parse_ok t = false -> render_model fuel sup nb L ld leaf data = Err EInherit.
 Proof. exact leaf_endblock_mismatch. Qed.
 Print Assumptions C18_endblock_mismatch.
+
+(* ---- the engine-wide blank-body rule (ast.BlockNode: a body all of whose nodes are blank is rendered into a null buffer
+   when suppress_blank_control_flow_blocks is set).  Model and specification carry it for every body there is in this
+   fragment -- a block definition reached through a block tag or through block.super, and a loop body; `nb` is Node.blank,
+   `node_blank` its value in the engine: whitespace-only text is blank, {{ ... }} never, a loop iff its body, and the block
+   tag NEVER (extends_tag.BlockNode.__init__ sets blank = False).  All theorems above hold for every `sup` and `nb`. *)
+
+(* a body in which a block tag occurs, directly or under loops, is never discarded *)
+Theorem C18_block_never_blank : forall sup body,
+  existsb has_block body = true -> body_blank sup node_blank body = false.
+Proof. exact block_never_blank. Qed.
+Print Assumptions C18_block_never_blank.
+
+(* ... so a loop around a block tag sends every iteration of its body to the real buffer *)
+Theorem C18_loop_around_block_kept : forall sup L st jump c x v items body,
+  existsb has_block body = true -> (L <? c_s c)%nat = false ->
+  exec_node sup node_blank L st jump c (For x (v :: items) body) =
+  seq_res (fun v => seq_res (exec_node sup node_blank L st jump
+                               {| c_env := (x, v) :: c_env c; c_s := S (c_s c); c_d := c_d c; c_block := c_block c |}) body)
+          (v :: items).
+Proof. exact loop_around_block_kept. Qed.
+Print Assumptions C18_loop_around_block_kept.
+
+(* a reached block tag renders the body of the most-derived definition; the tag's own body -- the default, possibly an empty
+   or whitespace-only placeholder -- plays no part, whatever Node.blank says about it *)
+Theorem C18_override_rendered : forall sup nb L st chain jump c name req en dflt b above,
+  (forall n, slookup n st = items_from chain n) ->
+  first_def chain name = Some (b, above) -> bd_required b = false -> (L <? c_d c)%nat = false ->
+  exec_node sup nb L st jump c (Block name req en dflt) =
+  jump {| c_env := c_env c; c_s := 4; c_d := S (c_d c);
+          c_block := Some (HSite (c_env c) (c_s c) (c_d c) (items_from above name)) |} (bd_body b).
+Proof. exact override_rendered. Qed.
+Print Assumptions C18_override_rendered.
+
+(* end to end: the root is `{% for x in items %}{% block a %}DEFAULT{% endblock %}{% endfor %}` with ANY default (empty,
+   whitespace, anything that parses and repeats no name), the leaf extends it and overrides a with plain content (text and
+   variables): every iteration renders the override (nothing only if the override itself is blank) *)
+Theorem C18_override_rendered_through_placeholders : forall fuel sup L ld rootn a x items dflt ov data,
+  alookup rootn ld = Some (ph_root a x items dflt) ->
+  parse_ok (ph_root a x items dflt) = true -> dup_bad (ph_root a x items dflt) = false ->
+  forallb is_plain ov = true -> 6 <= L ->
+  render_template (S (S (S fuel))) sup node_blank L ld data (ph_leaf rootn a ov) =
+  Ok (concat_str (map (fun v => if body_blank sup node_blank ov then [] else plain_out ((x, v) :: data) ov) items)).
+Proof. exact placeholder_in_loop. Qed.
+Print Assumptions C18_override_rendered_through_placeholders.
+
+(* the seeded change (block tag blank iff its body is): the main statement fails for it -- an empty placeholder alone in a
+   loop makes the loop body blank and the override's output is dropped *)
+Definition C18_seeded_blank_statement : Prop := forall fuel sup L ld leaf t chain data,
+  alookup leaf ld = Some t -> chain_from ld t chain -> 2 <= length chain ->
+  render_model fuel sup node_blank_seeded L ld leaf data <> OutOfFuel /\
+  render_model fuel sup node_blank_seeded L ld leaf data <> Err EContextDepth ->
+  render_spec fuel sup node_blank chain data = render_model fuel sup node_blank_seeded L ld leaf data.
+
+Definition seed_root : template := ph_root (lit "a") (lit "i") [1; 2]%Z [].
+Definition seed_leaf : template := ph_leaf (lit "root") (lit "a") [Text (lit "X")].
+
+Theorem C18_seeded_blank_refuted : ~ C18_seeded_blank_statement.
+Proof.
+  intro H.
+  specialize (H 10 true 30 [(lit "leaf", seed_leaf); (lit "root", seed_root)] (lit "leaf") seed_leaf [seed_leaf; seed_root] []
+                eq_refl).
+  assert (Hc : chain_from [(lit "leaf", seed_leaf); (lit "root", seed_root)] seed_leaf [seed_leaf; seed_root]).
+  { eapply chain_step; [reflexivity | reflexivity | apply chain_root; reflexivity]. }
+  specialize (H Hc (le_n 2)). vm_compute in H.
+  assert (X : Ok (lit "XX") = Ok (@nil N)) by (apply H; split; discriminate). discriminate X.
+Qed.
+Print Assumptions C18_seeded_blank_refuted.
 
 (* ------------------------------------------------------------------ non-vacuity and reading aids (tests) *)
 Definition B (n : string) (body : list node) : node := Block (lit n) false None body.
@@ -144,7 +212,7 @@ Definition ex_base : template :=
    TNode (B "footer" [Text (lit "Default footer")]); TNode (Text (lit ">"))].
 Definition ex_child : template :=
   [TExtends (lit "base"); TNode (Text (lit "ignored")); TNode (B "content" [Text (lit "Hello")]);
-   TNode (B "footer" [Super; Text (lit " - 2025")])].
+   TNode (B "footer" [Super false; Text (lit " - 2025")])].
 Definition ex_ld : loader := [(lit "base", ex_base); (lit "child", ex_child)].
 
 Example C18_chain_example : chain_from ex_ld ex_child [ex_child; ex_base].
@@ -152,15 +220,15 @@ Proof. eapply chain_step; [reflexivity | reflexivity | apply chain_root; reflexi
 
 (* the example of docs/optional_tags.md *)
 Example C18_docs_example :
-  run_inherit {| k_limit := 30; k_loader := ex_ld; k_leaf := lit "child"; k_data := [] |}
+  run_inherit {| k_suppress := true; k_limit := 30; k_loader := ex_ld; k_leaf := lit "child"; k_data := [] |}
   = Ok (lit "<Hello|Default footer - 2025>")
-  /\ render_spec 10 [ex_child; ex_base] [] = Ok (lit "<Hello|Default footer - 2025>")
-  /\ run_inherit {| k_limit := 30; k_loader := ex_ld; k_leaf := lit "base"; k_data := [] |} = Err ERequiredBlock.
+  /\ render_spec 10 true node_blank [ex_child; ex_base] [] = Ok (lit "<Hello|Default footer - 2025>")
+  /\ run_inherit {| k_suppress := true; k_limit := 30; k_loader := ex_ld; k_leaf := lit "base"; k_data := [] |} = Err ERequiredBlock.
 Proof. vm_compute. repeat split; reflexivity. Qed.
 
 Example C18_cycle_example :
   endless_chain [(lit "a", [TExtends (lit "b")]); (lit "b", [TExtends (lit "a")])] [TExtends (lit "b")]
-  /\ run_inherit {| k_limit := 30; k_loader := [(lit "a", [TExtends (lit "b")]); (lit "b", [TExtends (lit "a")])];
+  /\ run_inherit {| k_suppress := true; k_limit := 30; k_loader := [(lit "a", [TExtends (lit "b")]); (lit "b", [TExtends (lit "a")])];
                     k_leaf := lit "a"; k_data := [] |} = Err EInherit.
 Proof.
   split; [|vm_compute; reflexivity].
@@ -170,8 +238,8 @@ Qed.
 
 (* blocks that render each other without end are stopped by the depth guard, never by the fuel *)
 Example C18_recursion_example :
-  run_inherit {| k_limit := 30; k_leaf := lit "leaf"; k_data := [];
-                 k_loader := [(lit "leaf", [TExtends (lit "root"); TNode (B "b" [B "a" [Super]])]);
+  run_inherit {| k_suppress := true; k_limit := 30; k_leaf := lit "leaf"; k_data := [];
+                 k_loader := [(lit "leaf", [TExtends (lit "root"); TNode (B "b" [B "a" [Super false]])]);
                               (lit "root", [TNode (B "a" [B "b" []])])] |} = Err EContextDepth.
 Proof. vm_compute. reflexivity. Qed.
 
@@ -180,10 +248,36 @@ Proof. vm_compute. reflexivity. Qed.
    the block tag; written in an inherited definition, it sees the variables at the reference *)
 Example C18_super_scope_example :
   let root := [TNode (B "a" [Text (lit "i="); Var (lit "i")])] in
-  let loop := [TExtends (lit "root"); TNode (B "a" [For (lit "i") [1; 2]%Z [Super]])] in
-  let pass p := [TExtends (lit p); TNode (B "a" [Super])] in
-  run_inherit {| k_limit := 30; k_leaf := lit "leaf"; k_data := [];
+  let loop := [TExtends (lit "root"); TNode (B "a" [For (lit "i") [1; 2]%Z [Super false]])] in
+  let pass p := [TExtends (lit p); TNode (B "a" [Super false])] in
+  run_inherit {| k_suppress := true; k_limit := 30; k_leaf := lit "leaf"; k_data := [];
                  k_loader := [(lit "leaf", loop); (lit "root", root)] |} = Ok (lit "i=i=")
-  /\ run_inherit {| k_limit := 30; k_leaf := lit "leaf"; k_data := [];
+  /\ run_inherit {| k_suppress := true; k_limit := 30; k_leaf := lit "leaf"; k_data := [];
                     k_loader := [(lit "leaf", pass "mid"); (lit "mid", loop); (lit "root", root)] |} = Ok (lit "i=1i=2").
 Proof. vm_compute. split; reflexivity. Qed.
+
+(* blank bodies: a whitespace-only default reached through block.super gives nothing; whitespace at the top level of a
+   template and next to a block tag inside a loop stays; with the rule switched off everything stays *)
+Example C18_blank_examples :
+  let leaf := [TExtends (lit "root"); TNode (B "a" [Text (lit "X"); Super false; Text (lit "Y")])] in
+  let root := [TNode (Text (lit "[ ")); TNode (B "a" [Text (lit " ")]); TNode (Text (lit " ]"));
+               TNode (For (lit "i") [1; 2]%Z [Text (lit " "); B "b" [Text (lit " ")]]);
+               TNode (For (lit "i") [1; 2]%Z [Text (lit " ")])] in
+  let run sup := run_inherit {| k_suppress := sup; k_limit := 30; k_leaf := lit "leaf"; k_data := [];
+                                k_loader := [(lit "leaf", leaf); (lit "root", root)] |} in
+  run true = Ok (lit "[ XY ]  ") /\ run false = Ok (lit "[ X Y ]      ").
+Proof. vm_compute. split; reflexivity. Qed.
+
+Example C18_seed_example :
+  let c := {| k_suppress := true; k_limit := 30; k_leaf := lit "leaf"; k_data := [];
+              k_loader := [(lit "leaf", seed_leaf); (lit "root", seed_root)] |} in
+  run_inherit c = Ok (lit "XX") /\ run_inherit_seeded c = Ok [].
+Proof. vm_compute. split; reflexivity. Qed.
+
+(* block.super is a value: the rendered text of the parent definition, which filters apply to *)
+Example C18_super_filter_example :
+  run_inherit {| k_suppress := true; k_limit := 30; k_leaf := lit "leaf"; k_data := [(lit "g", 7%Z)];
+                 k_loader := [(lit "leaf", [TExtends (lit "root"); TNode (B "a" [Super true; Text (lit "-"); Super false])]);
+                              (lit "root", [TNode (B "a" [Text (lit "r"); Var (lit "g"); Text (lit "z")])])] |}
+  = Ok (lit "R7Z-r7z").
+Proof. vm_compute. reflexivity. Qed.
